@@ -381,6 +381,7 @@ func (c *client) setupRequestChan() chan clientRequest {
 					},
 					ready: make(chan clientResponse, 1),
 				}
+				verifYield("cancel.send", nil)
 				select {
 				case requests <- cancelReq:
 				case <-c.exiting:
